@@ -123,7 +123,10 @@ async def sc_base_tunnel_endpoint(loop: Any, env: Env) -> None:
     """
     cls = _mk_community("PlainCommunity2", b"\x12" * 20)
     nodes = [env.node(tunnel_endpoint=(i == 0)) for i in range(3)]
-    ovs = [nd.add(cls) for nd in nodes]
+    # "base_anon": the observed overlay is configured anonymize=True on that TunnelEndpoint (how IdentityCommunity is
+    # deployed); without circuits its own packets wait in the queue, what it receives over the socket is handled as ever
+    ovs = [nd.add(cls, **({"anonymize": True} if i == 0 and getattr(env, "anonymize", False) else {}))
+           for i, nd in enumerate(nodes)]
     env.target(nodes[0], ovs[0])
     ovs[1].walk_to(nodes[0].address)
     await asyncio.sleep(0.1)
@@ -489,8 +492,10 @@ async def sc_pex(loop: Any, env: Env) -> None:
 async def sc_identity(loop: Any, env: Env) -> None:
     from ipv8.attestation.identity.community import IdentityCommunity
     from ipv8.attestation.identity.manager import IdentityManager
-    nodes = [env.node() for _ in range(3)]
-    ovs = [nd.add(IdentityCommunity, identity_manager=IdentityManager(":memory:")) for nd in nodes]
+    anon = getattr(env, "anonymize", False)
+    nodes = [env.node(tunnel_endpoint=(i == 0 and anon)) for i in range(3)]
+    ovs = [nd.add(IdentityCommunity, identity_manager=IdentityManager(":memory:"), **({"anonymize": True} if i == 0 and anon else {}))
+           for i, nd in enumerate(nodes)]
     for a in nodes:
         for b in nodes:
             if a is not b:
@@ -567,6 +572,8 @@ async def sc_attestation(loop: Any, env: Env) -> None:
 SCENARIOS: dict[str, Callable] = {
     "base": sc_base,
     "base_te": sc_base_tunnel_endpoint,
+    "base_anon": sc_base_tunnel_endpoint,
+    "identity_anon": sc_identity,
     "bootstrap": sc_bootstrap,
     "discovery": sc_discovery,
     "dht": sc_dht,
@@ -601,6 +608,8 @@ async def run_scenario(loop: Any, name: str, env: Env | None = None) -> Env:
         env.no_ipv6 = True
     if name == "tunnel_dual":
         env.dispatcher = "dual"
+    if name.endswith("_anon"):
+        env.anonymize = True
     await SCENARIOS[name](loop, env)
     return env
 
